@@ -477,7 +477,7 @@ def run(res, tier, seed, replay):
         if quick and len(cases) > 6000:
             keep = [c for c in cases if c[3] == "direct"]
             rest = [c for c in cases if c[3] != "direct"]
-            cases = keep + rng.sample(rest, max(0, 6000 - len(keep)))
+            cases = keep + rng.sample(rest, min(len(rest), max(0, 6000 - len(keep))))
     base_projects = [project(t)[0] for t in B.values()]
     base_out = C.run_lines("harness", "fn", [P.run_line("out=sha", pj) for pj in base_projects])
     res.count(len(base_out))
